@@ -1,3 +1,16 @@
-import UtilModel.Keyed.Refine7
+import UtilModel.Keyed.Props
 open UtilModel UtilModel.Keyed
 #print axioms UtilModel.accepts_sound
+#print axioms UtilModel.accepted_satisfies
+#print axioms UtilModel.Chain.chain_one_running
+#print axioms UtilModel.Keyed.kinv_reachable
+#print axioms UtilModel.Keyed.inv3_reachable
+#print axioms UtilModel.Keyed.one_running_per_key
+#print axioms UtilModel.Keyed.removed_cancelled
+#print axioms UtilModel.Keyed.removed_dead
+#print axioms UtilModel.Keyed.removed_never_restarted
+#print axioms UtilModel.Keyed.retry_pending_armed
+#print axioms UtilModel.Keyed.retry_pending_setKey_nostart
+#print axioms UtilModel.Keyed.retry_pending_sync_norestart
+#print axioms UtilModel.Keyed.retry_pending_other_key
+#print axioms UtilModel.Keyed.retry_pending_fires
